@@ -206,6 +206,49 @@ pub fn world(api: &Api, tier: Tier, seed: u64, mode: Mode) -> Result<World, Stri
     Ok(World { api: *api, mode, setups: vec![a, b], max_regs, max_logins, nsrv, seed })
 }
 
+/// Separation on ONE tape: in a history every registration draws another envelope nonce, so the histories' pairwise
+/// comparison cannot tell whether the export key depends on the user, the password or the server at all.  Here every
+/// registration of the grid user (7: short, empty, 64 bytes, two 1000-byte identifiers that differ in the last byte) x
+/// password (2) x server (2) starts from the same tape position - same blind, same envelope nonce - so the export keys
+/// differ only through the OPRF output; all 28 must be pairwise distinct, and a login against each record (again from
+/// one common tape position) must return that record's export key.
+fn same_tape_grid(api: &Api, w: &World, seed: u64, cx: &mut Cx) {
+    let users: Vec<Vec<u8>> = crate::alphabet::cids_full().into_iter().take(7).collect();
+    let mut seen: Vec<(Vec<u8>, Value)> = vec![];
+    for (ui, u) in users.iter().enumerate() {
+        for (pi, pw) in PWS.iter().enumerate() {
+            for (si, setup) in w.setups.iter().enumerate() {
+                let case = json!({"same_tape_grid": {"user": crate::alphabet::desc(u), "pw": pi, "server": si}});
+                cx.begin_case(case.clone());
+                let mut t = Tape::seeded(seed, "c16/grid");
+                let r = match flow::register(api, &mut t, setup, pw, u, None, None, None) {
+                    Ok(r) => r,
+                    Err(e) => {
+                        honest_fail(cx, w.mode, "registration-fails", format!("an honest registration of the same-tape grid fails at {}: {:?}", e.step, e.e));
+                        continue;
+                    }
+                };
+                if let Some((_, other)) = seen.iter().find(|(k, _)| *k == r.export) {
+                    cx.violate_case("export-key/not-separated-on-one-tape", "two registrations on the same tape that differ in user, password or server return the same export key".into(), json!({"a": other, "b": case}));
+                }
+                seen.push((r.export.clone(), case));
+                let mut tl = Tape::seeded(seed, "c16/grid-login");
+                match flow::login(api, &mut tl, setup, Some(&r.file), pw, u, None, None, None, None) {
+                    Ok(l) => {
+                        if l.export != r.export {
+                            cx.violate("export-key/unstable", "a successful login returns a different export key than the registration that produced the record".into());
+                        }
+                        cx.outcome("grid-login-export-key-stable");
+                    }
+                    Err(e) => honest_fail(cx, w.mode, "login-fails", format!("an honest login of the same-tape grid fails at {}: {:?}", e.step, e.e)),
+                }
+                let _ = ui;
+            }
+        }
+    }
+    cx.sample(json!({"suite": api.name(), "same_tape_grid": {"registrations": seen.len(), "users": users.iter().map(|u| crate::alphabet::desc(u)).collect::<Vec<_>>(), "passwords": 2, "servers": w.setups.len(), "oracle": "export keys pairwise distinct; login export key = registration export key"}}));
+}
+
 pub fn run(tier: Tier, seed: u64) -> i32 {
     let t0 = Instant::now();
     let items = all_apis();
@@ -216,6 +259,7 @@ pub fn run(tier: Tier, seed: u64) -> i32 {
             let st = explore::bfs(&w, cx, 400_000);
             models.lock().unwrap().push(json!({"suite": api.name(), "max_registrations": w.max_regs, "max_logins": w.max_logins, "servers": w.nsrv, "states": st.states, "edges": st.edges, "depth": st.max_depth, "capped": st.capped}));
             cx.sample(json!({"suite": api.name(), "actions": "Register(user in 2, pw in 2, server) / Login(user, server, ctx in {absent, c})", "bounds": {"registrations": w.max_regs, "logins": w.max_logins}}));
+            same_tape_grid(api, &w, seed, cx);
         }
         Err(e) => cx.violate_case("honest-step/error", e, json!({})),
     }));
@@ -234,7 +278,7 @@ pub fn run(tier: Tier, seed: u64) -> i32 {
         property: "C16",
         tier,
         seed,
-        rule: "explicit-state BFS over all histories of registrations and logins (2 users x 2 passwords x up to 2 servers, contexts absent/'c') within the stated operation bounds on one tape; invariant evaluated on every transition and state".into(),
+        rule: "explicit-state BFS over all histories of registrations and logins (2 users x 2 passwords x up to 2 servers, contexts absent/'c') within the stated operation bounds on one tape; invariant evaluated on every transition and state; plus the complete same-tape grid user(7) x password(2) x server(2) with pairwise-distinct export keys".into(),
         bounds: json!({"suites": 20, "models": models.into_inner().unwrap()}),
         assumptions: vec![],
         exhaustive: true,
